@@ -1253,6 +1253,22 @@ func (*c19) Gen(rng *RNG, tier string) []Case {
 	cases = append(cases, Case{Tag: "nofile", Lines: []string{"authfile nofile", "authfile load docker 1", "authfile get " + tok("h.example"), "authfile get x"}})
 	cases = append(cases, Case{Tag: "nofile", Lines: []string{"authfile get " + tok("h.example"), "authfile nofile", "authfile load xdg 2", "authfile get " + tok("h.example")}})
 
+	// 0. a default store next to a host mapped to the empty helper (the docker CLI's way of saying "no helper
+	// for this host"): that host is answered from the table, whatever the store would say
+	for i := 0; i < 10*scale; i++ {
+		g := newGen()
+		hs := hostPick(2 + rng.Intn(2))
+		for _, h := range hs {
+			g.add(h, c19GoodKinds)
+		}
+		g.store = pick(rng, c19HelperNames)
+		g.helpers = append(g.helpers, [2]string{hs[0], ""})
+		for _, h := range hs {
+			g.behaviour(g.store, h, pick(rng, []int{0, 0, 1, 5}))
+		}
+		g.lookup(hs...)
+		cases = append(cases, g.finish("empty-helper"))
+	}
 	// 1. plain host keys
 	for i := 0; i < 250*scale; i++ {
 		g := newGen()
